@@ -129,6 +129,9 @@ def run_case(seed, tier, rec, st):
             for p in rng.sample(ps, min(len(ps), 6 if tier == "quick" else 20)):
                 jv = rng.choice(pool)
                 faults.append(("nested", set_at(d0, p, jv), jv))
+            # an explicit null at nested positions (the junk value most often special-cased by generated code)
+            for p in rng.sample(ps, min(len(ps), 8 if tier == "quick" else 24)):
+                faults.append(("nested-null", set_at(d0, p, None), None))
             # two simultaneous faults: the first bad field in declaration order must be named
             for _ in range(4 if tier == "quick" else 12):
                 if len(keys) >= 2:
